@@ -79,6 +79,9 @@ type Image = BTreeMap<String, (Vec<u8>, Vec<usize>)>;
 struct World {
     files: BTreeMap<String, FileImg>,
     raw: Vec<Raw>,
+    /// virtual time (ns since the run started) of every raw item
+    raw_t: Vec<u64>,
+    t0: Option<tokio::time::Instant>,
     ncalls: usize,
     faults: BTreeMap<usize, Fault>,
     /// snaps[j] = (synced length, length) of every existing file after j mutating calls
@@ -87,6 +90,12 @@ struct World {
     results: BTreeMap<u64, Result<(), String>>,
 }
 impl World {
+    fn log(&mut self, r: Raw) {
+        let now = tokio::time::Instant::now();
+        let t0 = *self.t0.get_or_insert(now);
+        self.raw_t.push(now.duration_since(t0).as_nanos() as u64);
+        self.raw.push(r);
+    }
     fn snap(&mut self) {
         let s = self.files.iter().map(|(n, f)| (n.clone(), f.synced, f.data.len())).collect();
         self.snaps.push(s);
@@ -150,7 +159,7 @@ impl WalFileWriter for ScriptWriter {
         if res.is_ok() {
             self.size += data.len() as u64;
         }
-        w.raw.push(Raw::Io(call, outc));
+        w.log(Raw::Io(call, outc));
         w.snap();
         res.map(|_| self.size)
     }
@@ -168,7 +177,7 @@ impl WalFileWriter for ScriptWriter {
             Some(_) => Err(WalError::FsyncFailed(format!("scripted fault at call {}", idx))),
         };
         let outc = if res.is_ok() { Outc::Ok } else { Outc::Err(Eff::None) };
-        w.raw.push(Raw::Io(Call::Sync(self.seq), outc));
+        w.log(Raw::Io(Call::Sync(self.seq), outc));
         w.snap();
         res
     }
@@ -204,7 +213,7 @@ impl WalStore for ScriptStore {
             (Err(_), false) => Outc::Err(Eff::None),
             (Err(_), true) => Outc::Err(Eff::Full),
         };
-        w.raw.push(Raw::Io(Call::Create(seq), outc));
+        w.log(Raw::Io(Call::Create(seq), outc));
         w.snap();
         res.map(|_| ScriptWriter { name: name.to_string(), seq, world: Arc::clone(&self.0), size: 0 })
     }
@@ -236,25 +245,26 @@ impl Wake for TraceWake {
         self.wake_by_ref()
     }
     fn wake_by_ref(self: &Arc<Self>) {
-        self.world.lock().unwrap().raw.push(Raw::Wake(self.id));
+        self.world.lock().unwrap().log(Raw::Wake(self.id));
         self.inner.wake_by_ref();
     }
 }
 /// Polls `fut` with a waker that logs every wake-up (the ack's `oneshot::Sender::send`
 /// wakes the waiting writer synchronously, inside the actor's flush).
-struct Traced<'a> {
-    fut: Pin<Box<dyn Future<Output = Result<(), WalError>> + Send + 'a>>,
+const SHUT_ID: u64 = u64::MAX; // the traced future is a shutdown(), not a write
+struct Traced<'a, T> {
+    fut: Pin<Box<dyn Future<Output = T> + Send + 'a>>,
     id: u64,
     world: Arc<Mutex<World>>,
     started: bool,
 }
-impl<'a> Future for Traced<'a> {
-    type Output = Result<(), WalError>;
+impl<'a, T> Future for Traced<'a, T> {
+    type Output = T;
     fn poll(mut self: Pin<&mut Self>, cx: &mut Context<'_>) -> Poll<Self::Output> {
         if !self.started {
             self.started = true;
             let id = self.id;
-            self.world.lock().unwrap().raw.push(Raw::Sent(id));
+            self.world.lock().unwrap().log(Raw::Sent(id));
         }
         let tw = Arc::new(TraceWake { inner: cx.waker().clone(), id: self.id, world: Arc::clone(&self.world) });
         let waker = Waker::from(tw);
@@ -278,6 +288,8 @@ struct Plan {
     max_wait_us: u64,
     tasks: Vec<Vec<WriteSpec>>,
     faults: BTreeMap<usize, Fault>,
+    /// a separate task sends Shutdown at this virtual time, while writers may be in flight
+    shutdown_at_us: Option<u64>,
 }
 
 fn make_delta(id: u64, vlen: usize) -> ReplicationDelta {
@@ -292,14 +304,18 @@ fn make_delta(id: u64, vlen: usize) -> ReplicationDelta {
 enum Item {
     Io(Call, Outc),
     Ack(u64, bool),
+    Down, // the response to the mid-run Shutdown was sent
 }
 #[derive(Clone, Debug, PartialEq, Eq)]
 enum Sched {
     Write(u64, u64),
     Flush,
+    Shutdown,
 }
 struct Run {
     items: Vec<Item>,
+    /// the mid-run Shutdown found pending acks (its final flush resolved them)
+    shutdown_with_pending: bool,
     sched: Vec<Sched>,
     sent: Vec<u64>,
     results: BTreeMap<u64, Result<(), String>>,
@@ -400,6 +416,17 @@ fn run_plan(plan: &Plan, init: &Image) -> Run {
                 }
             }));
         }
+        if let Some(at) = plan.shutdown_at_us {
+            let h = handle.clone();
+            let world = Arc::clone(&world);
+            joins.push(tokio::spawn(async move {
+                if at > 0 {
+                    tokio::time::sleep(Duration::from_micros(at)).await;
+                }
+                let fut = Traced { fut: Box::pin(h.shutdown()), id: SHUT_ID, world, started: false };
+                fut.await;
+            }));
+        }
         for j in joins {
             if j.await.is_err() {
                 problems.push("a writer task panicked".to_string());
@@ -421,11 +448,31 @@ fn run_plan(plan: &Plan, init: &Image) -> Run {
             Raw::Wake(id) => {
                 last_wake.insert(*id, p);
             }
-            Raw::Sent(id) => sent.push(*id),
+            Raw::Sent(id) if *id != SHUT_ID => sent.push(*id),
             _ => {}
         }
     }
+    // writes that never reached the actor: sent after it had stopped ("unavailable"), or
+    // still queued when it stopped ("dropped ack channel"); only possible after a Shutdown
+    let unhandled: BTreeSet<u64> = w
+        .results
+        .iter()
+        .filter(|(_, r)| matches!(r, Err(e) if e.contains("WAL actor unavailable") || e.contains("WAL actor dropped ack channel")))
+        .map(|(id, _)| *id)
+        .collect();
+    if !unhandled.is_empty() && plan.shutdown_at_us.is_none() {
+        problems.push(format!("writes {:?} found the actor gone although no Shutdown was sent", unhandled));
+    }
+    for r in w.raw.iter() {
+        if let Raw::Io(Call::Ent(_, id, _), _) = r {
+            if unhandled.contains(id) {
+                problems.push(format!("write {} was appended by the actor but its ack channel was dropped", id));
+            }
+        }
+    }
+    sent.retain(|id| !unhandled.contains(id));
     let mut items = Vec::new();
+    let mut items_t: Vec<u64> = Vec::new();
     let mut sizes = BTreeMap::new();
     for (p, r) in w.raw.iter().enumerate() {
         match r {
@@ -434,15 +481,26 @@ fn run_plan(plan: &Plan, init: &Image) -> Run {
                     sizes.insert(*id, *sz);
                 }
                 items.push(Item::Io(*c, *o));
+                items_t.push(w.raw_t[p]);
             }
+            Raw::Wake(id) if *id == SHUT_ID => {
+                if last_wake.get(id) == Some(&p) {
+                    items.push(Item::Down);
+                    items_t.push(w.raw_t[p]);
+                }
+            }
+            Raw::Wake(id) if unhandled.contains(id) => {}
+            Raw::Sent(id) if *id == SHUT_ID || unhandled.contains(id) => {}
             Raw::Wake(id) if last_wake.get(id) == Some(&p) => {
                 let ok = matches!(w.results.get(id), Some(Ok(())));
                 items.push(Item::Ack(*id, ok));
+                items_t.push(w.raw_t[p]);
             }
             Raw::Sent(id) if !last_wake.contains_key(id) => {
                 // completed without ever being woken (actor unavailable): resolved at send time
                 problems.push(format!("write {} completed without an ack wake-up: {:?}", id, w.results.get(id)));
                 items.push(Item::Ack(*id, matches!(w.results.get(id), Some(Ok(())))));
+                items_t.push(w.raw_t[p]);
             }
             _ => {}
         }
@@ -458,7 +516,9 @@ fn run_plan(plan: &Plan, init: &Image) -> Run {
     let mut mentioned = BTreeSet::new();
     let mut pending = BTreeSet::new();
     let mut in_burst = false;
-    for it in &items {
+    let mut burst_t = 0u64;
+    let mut shutdown_with_pending = false;
+    for (ix, it) in items.iter().enumerate() {
         match it {
             Item::Io(Call::Ent(_, id, sz), o) => {
                 if mentioned.insert(*id) {
@@ -474,6 +534,7 @@ fn run_plan(plan: &Plan, init: &Image) -> Run {
                 if pending.remove(id) {
                     if !in_burst {
                         sched.push(Sched::Flush);
+                        burst_t = items_t[ix];
                         in_burst = true;
                     }
                 } else {
@@ -482,6 +543,16 @@ fn run_plan(plan: &Plan, init: &Image) -> Run {
                     }
                     in_burst = false;
                 }
+            }
+            Item::Down => {
+                // the acks just before the response are the Shutdown's own final flush
+                // (same virtual instant; a batch flushed earlier is a flush of its own)
+                if in_burst && sched.last() == Some(&Sched::Flush) && burst_t == items_t[ix] {
+                    sched.pop();
+                    shutdown_with_pending = true;
+                }
+                sched.push(Sched::Shutdown);
+                in_burst = false;
             }
         }
     }
@@ -528,6 +599,7 @@ fn run_plan(plan: &Plan, init: &Image) -> Run {
         .collect();
     Run {
         items,
+        shutdown_with_pending,
         sched,
         sent,
         results: w.results.clone(),
@@ -553,13 +625,19 @@ fn fixed_plan(i: u64) -> Option<Plan> {
     let six = |sleep: u64| -> Vec<Vec<WriteSpec>> { (1..=6).map(|id| vec![WriteSpec { id, vlen: 2, sleep_us: sleep }]).collect() };
     match i {
         // 6 concurrent durable writes, max_file_size 200: the batch straddles rotations
-        0 => Some(Plan { max_file_size: 200, max_entries: 8, max_wait_us: 50, tasks: six(0), faults: BTreeMap::new() }),
+        0 => Some(Plan { max_file_size: 200, max_entries: 8, max_wait_us: 50, tasks: six(0), faults: BTreeMap::new(), shutdown_at_us: None }),
         // one file; the append of the 4th entry of the batch fails with nothing written
-        1 => Some(Plan { max_file_size: 1 << 20, max_entries: 8, max_wait_us: 50, tasks: six(0), faults: [(5usize, Fault { kind: 0, frac: 0 })].into_iter().collect() }),
+        1 => Some(Plan { max_file_size: 1 << 20, max_entries: 8, max_wait_us: 50, tasks: six(0), faults: [(5usize, Fault { kind: 0, frac: 0 })].into_iter().collect(), shutdown_at_us: None }),
         // partial append in the middle of the batch
-        2 => Some(Plan { max_file_size: 1 << 20, max_entries: 8, max_wait_us: 50, tasks: six(0), faults: [(4usize, Fault { kind: 2, frac: 40 })].into_iter().collect() }),
+        2 => Some(Plan { max_file_size: 1 << 20, max_entries: 8, max_wait_us: 50, tasks: six(0), faults: [(4usize, Fault { kind: 2, frac: 40 })].into_iter().collect(), shutdown_at_us: None }),
         // rotation in the batch and the new file cannot be created
-        3 => Some(Plan { max_file_size: 200, max_entries: 8, max_wait_us: 50, tasks: six(0), faults: [(4usize, Fault { kind: 0, frac: 0 })].into_iter().collect() }),
+        3 => Some(Plan { max_file_size: 200, max_entries: 8, max_wait_us: 50, tasks: six(0), faults: [(4usize, Fault { kind: 0, frac: 0 })].into_iter().collect(), shutdown_at_us: None }),
+        // Shutdown arrives inside the group-commit wait window of an open batch and the final fsync fails
+        4 => Some(Plan { max_file_size: 1 << 20, max_entries: 8, max_wait_us: 50, tasks: six(0), faults: [(8usize, Fault { kind: 0, frac: 0 })].into_iter().collect(), shutdown_at_us: Some(10) }),
+        // the same, the final fsync succeeds
+        5 => Some(Plan { max_file_size: 1 << 20, max_entries: 8, max_wait_us: 50, tasks: six(0), faults: BTreeMap::new(), shutdown_at_us: Some(10) }),
+        // Shutdown queued behind a batch that straddles a rotation; the final fsync fails
+        6 => Some(Plan { max_file_size: 200, max_entries: 64, max_wait_us: 200, tasks: six(0), faults: [(11usize, Fault { kind: 0, frac: 0 })].into_iter().collect(), shutdown_at_us: Some(0) }),
         _ => None,
     }
 }
@@ -602,7 +680,40 @@ fn gen_shape(rng: &mut Rng, tasks: &[Vec<WriteSpec>]) -> Shape {
 
 /// Plant faults on the I/O calls of `plan` (a dry run tells how many calls there are).
 fn plant_faults(rng: &mut Rng, plan: &mut Plan, init: &Image, multi: u64) -> String {
-    let n0 = run_plan(plan, init).ncalls.max(1);
+    let dry = run_plan(plan, init);
+    let n0 = dry.ncalls.max(1);
+    if plan.shutdown_at_us.is_some() {
+        // the fsync of the Shutdown's final flush, if it resolved pending acks in the dry run
+        let mut calls = 0usize;
+        let mut last: Option<(usize, bool)> = None;
+        let mut acks_since = 0usize;
+        let mut target = None;
+        for it in &dry.items {
+            match it {
+                Item::Io(c, _) => {
+                    last = Some((calls, matches!(c, Call::Sync(_))));
+                    calls += 1;
+                    acks_since = 0;
+                }
+                Item::Ack(..) => acks_since += 1,
+                Item::Down => {
+                    if let Some((idx, true)) = last {
+                        if acks_since > 0 && dry.shutdown_with_pending {
+                            target = Some(idx);
+                        }
+                    }
+                }
+            }
+        }
+        if let Some(idx) = target {
+            if rng.gen_bool(0.5) {
+                plan.faults.insert(idx, Fault { kind: rng.gen_range(0..4), frac: rng.gen() });
+                if multi == 0 || rng.gen_bool(0.5) {
+                    return "faults:on-shutdown-fsync".to_string();
+                }
+            }
+        }
+    }
     let mode = rng.gen_range(0..100u32);
     let nf = if multi == 0 {
         if mode < 10 { 0 } else { 1 }
@@ -654,12 +765,14 @@ fn c_item(i: &Item) -> String {
     match i {
         Item::Io(c, o) => format!("IO {} {}", c_call(c), c_outc(o)),
         Item::Ack(id, ok) => format!("AK {} {}", id, cbool(*ok)),
+        Item::Down => "DN".to_string(),
     }
 }
 fn c_sched(s: &Sched) -> String {
     match s {
         Sched::Write(id, sz) => format!("SW {} {}", id, sz),
         Sched::Flush => "SF".to_string(),
+        Sched::Shutdown => "SD".to_string(),
     }
 }
 fn c_ids(v: &[u64]) -> String {
@@ -725,7 +838,8 @@ fn main() {
                 }
                 None => {
                     let tasks = gen_tasks(&mut rng, next_id);
-                    let mut plan = Plan { max_file_size: shape.max_file_size, max_entries: shape.max_entries, max_wait_us: shape.max_wait_us, tasks, faults: BTreeMap::new() };
+                    let shutdown_at_us = if rng.gen_range(0..100u32) < 30 { Some(*[0u64, 0, 1, 10, 30, 49, 50, 51, 60, 100, 150, 250, 500].get(rng.gen_range(0..13)).unwrap()) } else { None };
+                    let mut plan = Plan { max_file_size: shape.max_file_size, max_entries: shape.max_entries, max_wait_us: shape.max_wait_us, tasks, faults: BTreeMap::new(), shutdown_at_us };
                     flabels.push(plant_faults(&mut rng, &mut plan, &image, multi));
                     plan
                 }
@@ -766,6 +880,7 @@ fn main() {
             json!({
                 "max_file_size": plan.max_file_size, "group_commit_max_entries": plan.max_entries, "group_commit_max_wait_us": plan.max_wait_us,
                 "writer_tasks": plan.tasks.iter().map(|t| t.iter().map(|s| json!({"id": s.id, "value_len": s.vlen, "sleep_us": s.sleep_us})).collect::<Vec<_>>()).collect::<Vec<_>>(),
+                "shutdown_sent_at_us": plan.shutdown_at_us,
                 "faults": plan.faults.iter().map(|(k, f)| json!({"call": k, "kind": f.kind, "frac": f.frac})).collect::<Vec<_>>(),
                 "items_kept_per_file_by_the_preceding_crash": inc.keep,
                 "acked_ok_by_earlier_incarnations": inc.prior_acked,
@@ -891,6 +1006,7 @@ fn main() {
                             open -= 1;
                         }
                     }
+                    Item::Down => burst = 0,
                     Item::Io(c, o) => {
                         burst = 0;
                         if open > 0 && matches!(c, Call::Create(_)) {
@@ -913,6 +1029,21 @@ fn main() {
                         match e { Eff::None => "nothing-written", Eff::Torn => "partial", Eff::Full => "done-but-error" }
                     ));
                 }
+            }
+            if let Some(p) = run.items.iter().position(|x| *x == Item::Down) {
+                let with_pending = run.shutdown_with_pending;
+                let sync_failed = with_pending && run.items[..p].iter().rev().find(|x| matches!(x, Item::Io(..))).map(|x| matches!(x, Item::Io(Call::Sync(_), Outc::Err(_)))).unwrap_or(false);
+                let goes_on = run.items[p + 1..].iter().any(|x| matches!(x, Item::Io(..)));
+                out.count(if !with_pending { "shutdown:nothing-pending" } else if sync_failed { "shutdown:pending-acks,final-fsync-FAILED" } else { "shutdown:pending-acks,final-fsync-ok-or-no-writer" });
+                if goes_on {
+                    out.count("shutdown:actor-kept-running(taken-inside-wait-window)");
+                }
+            } else if inc.plan.shutdown_at_us.is_some() {
+                out.count("shutdown:sent-after-all-writes-or-not-traced");
+            }
+            let dropped = run.results.values().filter(|r| matches!(r, Err(e) if e.contains("WAL actor unavailable") || e.contains("WAL actor dropped ack channel"))).count();
+            if dropped > 0 {
+                out.count("writes-that-found-the-actor-stopped");
             }
             let nerr = run.results.values().filter(|r| r.is_err()).count();
             out.count(if nerr == 0 { "acks:all-ok" } else if nerr == run.results.len() { "acks:all-err" } else { "acks:mixed" });
